@@ -11,6 +11,8 @@ package vh
 
 import (
 	"fmt"
+	"path"
+	"strings"
 	"testing"
 
 	"pgregory.net/rapid"
@@ -31,6 +33,9 @@ func c10Chain(set TSet, main string, ctx Ctx) ([]*Tmpl, bool) {
 		name, ok := v.(string)
 		if err != nil || !ok {
 			return nil, false
+		}
+		if strings.HasPrefix(name, "./") || strings.HasPrefix(name, "../") {
+			name = path.Join(path.Dir(cur.Name), name)
 		}
 		cur = byName[name]
 	}
@@ -141,6 +146,40 @@ func c10FlatTemplate(c SetCase, ctx Ctx) (*Tmpl, bool) {
 	return &Tmpl{Name: "flat", Body: flat}, true
 }
 
+// c10Relativise moves the chain into nested directories so that every child names its parent
+// by the same relative string "../t" (main = d/d/.../t, base = t). Only for static parent names.
+func c10Relativise(c SetCase) (SetCase, bool) {
+	main := c.Main
+	if main == "" {
+		main = "main"
+	}
+	chain, ok := c10Chain(c.Set, main, c.Ctx)
+	if !ok || len(chain) < 2 {
+		return c, false
+	}
+	newName := map[string]string{}
+	for i, t := range chain {
+		if t.Extends != nil && t.Extends.K != "str" {
+			return c, false
+		}
+		newName[t.Name] = strings.Repeat("d/", len(chain)-1-i) + "t"
+	}
+	var set TSet
+	for _, t := range c.Set {
+		cp := *t
+		if nn, ok := newName[t.Name]; ok {
+			cp.Name = nn
+			if cp.Extends != nil {
+				cp.Extends = Str("../t")
+			}
+		} else if t.Extends != nil {
+			return c, false
+		}
+		set = append(set, &cp)
+	}
+	return SetCase{Ctx: c.Ctx, Set: set, Main: newName[main]}, true
+}
+
 func checkC10Flat(c SetCase) error {
 	ctxs := []Ctx{c.Ctx}
 	if c.Ctx2 != nil {
@@ -160,7 +199,9 @@ func checkC10Flat(c SetCase) error {
 		e1 := newEngine(srcs)
 		NewSpies().Install(e1)
 		r1 := render(e1, main, zooCtx(ctx, 0))
-		e2 := newEngine(map[string]string{"flat": fsrc})
+		all := copyMap(srcs) // templates off the chain (included partials) stay available
+		all["flat"] = fsrc
+		e2 := newEngine(all)
 		NewSpies().Install(e2)
 		r2 := render(e2, "flat", zooCtx(ctx, 0))
 		if r1.Panic != "" || r2.Panic != "" {
@@ -177,7 +218,7 @@ func checkC10Flat(c SetCase) error {
 }
 
 func TestC10Flatten(t *testing.T) {
-	r := NewRec(t, "C10", "the generated extends chains of TestC10Inheritance and the grid of TestC10Grid, compared with the single template obtained by substituting blocks and parent() calls by hand on the case AST (no extends, no block, no parent() left); oracle: identical engine output; non-trivial as in TestC10Inheritance; cases whose parent() has no parent definition are not flattened (counted)")
+	r := NewRec(t, "C10", "the generated extends chains of TestC10Inheritance and the grid of TestC10Grid, compared with the single template obtained by substituting blocks and parent() calls by hand on the case AST (no extends, no block, no parent() left); chains with static parent names are checked a second time laid out in nested directories with every child extending the same relative name '../t'; oracle: identical engine output; non-trivial as in TestC10Inheritance; cases whose parent() has no parent definition are not flattened (counted)")
 	defer r.Flush()
 	forEachC10Grid(func(key string, sc SetCase) {
 		if _, ok := c10FlatTemplate(sc, sc.Ctx); !ok {
@@ -187,6 +228,11 @@ func TestC10Flatten(t *testing.T) {
 		r.Case("grid"+key, true, sc.Set.Sources(SPrint{})["main"], "grid")
 		if err := checkC10Flat(sc); err != nil {
 			r.FailEnum(t, "C10.flat", sc, err)
+		}
+		if rc, ok := c10Relativise(sc); ok {
+			if err := checkC10Flat(rc); err != nil {
+				r.FailEnum(t, "C10.flat", rc, err)
+			}
 		}
 	})
 	rapid.Check(t, func(rt *rapid.T) {
@@ -200,6 +246,13 @@ func TestC10Flatten(t *testing.T) {
 		r.Case(showSources(srcs), nt, srcs, fmt.Sprintf("chain:%d", len(c.Set)))
 		if err := checkC10Flat(c); err != nil {
 			r.Fail(rt, "C10.flat", c, err)
+		}
+		// the same chain laid out in nested directories, every child extending "../t"
+		if rc, ok := c10Relativise(c); ok {
+			r.Class("relative-parent-names")
+			if err := checkC10Flat(rc); err != nil {
+				r.Fail(rt, "C10.flat", rc, err)
+			}
 		}
 	})
 }
